@@ -60,7 +60,7 @@ func (p *Program) isExecuted(pkgPath string) bool {
 
 // skipInit: packages whose init is not run (their globals are opaque).
 func (p *Program) skipInit(pkgPath string) bool {
-	if pkgPath == "github.com/shopspring/decimal" || pkgPath == "time" || pkgPath == "strconv" || pkgPath == "net/url" || pkgPath == "encoding/base64" {
+	if pkgPath == "github.com/shopspring/decimal" || pkgPath == "time" || pkgPath == "strconv" || pkgPath == "net/url" || pkgPath == "encoding/base64" || pkgPath == "unicode" {
 		return false
 	}
 	if !strings.HasPrefix(pkgPath, RepoModule) {
